@@ -258,10 +258,14 @@ func encAdmission(a *core.Admission) ([]byte, bool) {
 
 // ---------------------------------------------------------------- generators
 
+// allowLongTexts is switched on by the checks whose oracle tolerates a refusal of texts beyond the standards' size
+// bounds (C07, C16); everywhere else generated texts stay short.
+var allowLongTexts bool
+
 func genText(t *rapid.T, label string, maxLen int) string {
 	alpha := []rune(valueAlphabets[rapid.IntRange(0, len(valueAlphabets)-1).Draw(t, label+"-alpha")])
 	n := rapid.IntRange(1, maxLen).Draw(t, label+"-len")
-	if rapid.IntRange(0, 11).Draw(t, label+"-longtext") == 0 {
+	if allowLongTexts && rapid.IntRange(0, 11).Draw(t, label+"-longtext") == 0 {
 		// long texts: around the DER length boundaries and RFC 5280's 200-character DisplayText bound (which gopki does not impose)
 		n = rapid.SampledFrom([]int{127, 128, 129, 199, 200, 201, 255, 256, 300, 1000}).Draw(t, label+"-longlen")
 		seed := rapid.SliceOfN(rapid.IntRange(0, len(alpha)-1), 1, 6).Draw(t, label+"-longseed")
@@ -693,3 +697,53 @@ func mutateExt(t *rapid.T, e core.Extension, label string) (core.Extension, stri
 }
 
 var _ = big.NewInt
+
+// oversizeText: the extension carries a free text longer than the upper bounds the standards put on such strings
+// (DisplayText SIZE 1..200 in RFC 5280, SIZE 1..128 for the CommonPKI admission strings). gopki imposes no bound and
+// encodes them in full; refusing such a text would be just as right, shortening it would not.
+func oversizeText(x *core.Extension) bool {
+	long := func(s string) bool { return len([]rune(s)) > 126 }
+	for _, p := range x.CP {
+		for _, q := range p.Qualifiers {
+			if q.Notice != nil && (long(q.Notice.Text) || long(q.Notice.Organization)) {
+				return true
+			}
+		}
+	}
+	if x.Adm != nil {
+		for _, a := range x.Adm.Contents {
+			if a.Naming != nil && long(a.Naming.Text) {
+				return true
+			}
+			for _, pi := range a.Infos {
+				if pi.Naming != nil && long(pi.Naming.Text) || long(pi.RegNum) {
+					return true
+				}
+				for _, it := range pi.Items {
+					if long(it) {
+						return true
+					}
+				}
+			}
+		}
+	}
+	return false
+}
+
+func worldHasOversizeText(w *World) bool {
+	for i := range w.Ents {
+		for j := range w.Ents[i].Extensions {
+			if oversizeText(&w.Ents[i].Extensions[j]) {
+				return true
+			}
+		}
+	}
+	for i := range w.Profs {
+		for j := range w.Profs[i].Extensions {
+			if oversizeText(&w.Profs[i].Extensions[j]) {
+				return true
+			}
+		}
+	}
+	return false
+}
